@@ -774,6 +774,12 @@ class AbstractExcelInPython(ABC):
 
         return method(self) if method else self.EmptyCell()
 
+    def _rows_below(self, sheet: int, column: int, first_row: int) -> List:
+        # A whole-column reference (A:A) is written out cell by cell when the workbook is translated; rows that
+        # set_cells has appended below the sheet since then belong to the column as well.
+        return [self._cell_preprocessor(f'_{sheet}_{column}_{row}')
+                for row in range(first_row, self._sheets_size[sheet]['last_row'])]
+
     def exec_function_in(self, cell_uid: str):
         return self._cell_preprocessor(cell_uid)
 
